@@ -266,6 +266,18 @@ pub fn text(c: &Case) -> String {
             pre = format!("P ::= {t} (FROM ({}))\n", opnd_text(&ops[c.cons[0].operands[0]]));
             format!("A ::= {t} {}", cons_text(Some("P")))
         }
+        // the included type sorts before the including one (the order in which the inclusion is resolved), written in
+        // three ways: FROM alone, SIZE then FROM as separate constraints, FROM then SIZE
+        x if x.starts_with("include-rev") => {
+            let f = format!("(FROM ({}))", opnd_text(&ops[c.cons[0].operands[0]]));
+            let base = match x {
+                "include-rev-size-first" => format!("(SIZE (1..4)) {f}"),
+                "include-rev-size-last" => format!("{f} (SIZE (1..4))"),
+                _ => f,
+            };
+            pre = format!("Aa ::= {t} {base}\n");
+            format!("Zz ::= {t} {}", cons_text(Some("Aa")))
+        }
         "parent" => {
             pre = format!("P ::= {t} ({})\n", from(&c.cons[0], None));
             format!("A ::= P ({})", from(&c.cons[1], None))
@@ -486,6 +498,9 @@ impl Prop for C15 {
             // one witness row each for the constructions that are known not to work at all (see known_findings.txt)
             for e in e1.iter() {
                 out.push(Case { ty: ty.into(), cons: vec![e.clone()], size: "none".into(), ctx: "include".into() });
+                for ctx in ["include-rev", "include-rev-size-first", "include-rev-size-last"] {
+                    out.push(Case { ty: ty.into(), cons: vec![e.clone()], size: "none".into(), ctx: ctx.into() });
+                }
             }
             // serial / parent: 1-operand × 1-operand
             if !heavy || tier.thorough() {
@@ -651,6 +666,7 @@ impl Prop for C15 {
                 }
                 v
             }
+            x if x.starts_with("include-rev") => m.find("Zz").and_then(|i| i.attrs()).map(|a| vec![&a.rasn]).unwrap_or_default(),
             _ => m.find("A").and_then(|i| i.attrs()).map(|a| vec![&a.rasn]).unwrap_or_default(),
         };
         if attrs.is_empty() {
